@@ -2,6 +2,9 @@
 # runs the self-validation seeds of every property that has any
 cd "$(dirname "$0")/.." || exit 2
 rc=0
+# one private Go build cache for all helper-inlined views of this run (see checker/main.go viewCacheDir)
+BCHVERIF_VIEWCACHE=$(mktemp -d /tmp/bchverif-gocache-XXXXXX); export BCHVERIF_VIEWCACHE
+trap 'rm -rf "$BCHVERIF_VIEWCACHE"' EXIT
 for d in seeds/*/; do
 	p=$(basename "$d")
 	out=$(bin/bchverif -prop "$p" -seeds-only -repo /repo -verif "$(pwd)")
